@@ -201,6 +201,17 @@ CHECKS = {
         note="Trusted: z3 (linear integer arithmetic); the exact-decimal model of float()/'%f' (sx/symnum.py, valid "
              'up to 15 significant / 6 fractional digits); hsl()/hsla() and colour keywords are outside.',
         design='3 C18'),
+    'C19': dict(
+        text='URLs: a sheet with url() values at every nesting level and two @import rules; one URL at a time is written '
+             'with a hole filled by solver variables over all of Unicode; getUrls must equal the harness\'s own document-order '
+             'walk, replaceUrls must call the replacer once per URL, change nothing else, and be a no-op for the identity '
+             '(symbolic equality of cssText). Flattening: import trees over a virtual file system chosen by solver variables '
+             '(location of the top sheet, eight href forms, media, missing and unwrappable targets, eight url() forms, depth '
+             '<= 2); resolveImports must keep cascade order and media wrapping, fetch each target once, and every url() / kept '
+             '@import must resolve (urljoin) from the combined sheet to what it resolved to from its own sheet.',
+        note='The URL jobs are solver-quantified over the hole characters; the flatten jobs are finite-choice (solver-driven '
+             'enumeration with a bound on how many choices leave the first menu entry). Trusted: z3, urllib.parse.urljoin.',
+        design='3 C19'),
     'C20': dict(
         text='Bounded symbolic model checking of encutils: getEncodingInfo with the three extractors as nondeterministic '
              'stubs (each answer a solver-driven choice), the HTTP media type a representative of each class with every '
